@@ -106,6 +106,29 @@ func genC24(g *Gen, tier string, w *bufio.Writer) {
 		}
 		fmt.Fprintln(w, "proj "+mask+" "+jsonOp(g.U64()>>1, genJSONDoc(g, Pick(g, []int{2, 5, 101, 130}), false)))
 	}
+	// the per-column checks of the executing datasource (nullable? which kinds?) are precomputed per KEPT column, the cells are
+	// read by FILE position: every mask over three columns, one of which was nullable in the preview, one late empty / odd cell
+	for _, mask := range []string{"011", "101", "110", "001", "010", "100", "111"} {
+		for nullableCol := -1; nullableCol < 3; nullableCol++ {
+			for lateCol := 0; lateCol < 3; lateCol++ {
+				if tier != "thorough" && g.Chance(1, 2) {
+					continue
+				}
+				d := &csvDoc{sep: 'c', header: true, names: []string{"a", "b", "c"}}
+				for r := 0; r < 100; r++ {
+					row := []string{strconv.Itoa(g.Intn(50)), strconv.Itoa(g.Intn(50)), strconv.Itoa(g.Intn(50))}
+					if nullableCol >= 0 && r%7 == 3 {
+						row[nullableCol] = ""
+					}
+					d.rows = append(d.rows, row)
+				}
+				late := []string{"1", "2", "3"}
+				late[lateCol] = Pick(g, []string{"", "", "x", "1.5"})
+				d.rows = append(d.rows, late, []string{"4", "5", "6"})
+				fmt.Fprintln(w, "proj "+mask+" "+d.op(g.U64()>>1))
+			}
+		}
+	}
 	// --- JSON files
 	for rep := 0; rep < 2*mul; rep++ {
 		for _, n := range []int{1, 2, 5, 99, 100, 101, 102, 150} {
